@@ -55,7 +55,9 @@ func paramShapes(desc sim.ModelDescription) []string {
 }
 
 func inputShapes(desc sim.ModelDescription) []string {
-	out := []string{"all", "all-missing", "extra", "reversed"}
+	// extra-first / extra-longer: a series that is no input of the model, of another length, first / last in the list;
+	// extreme: the largest finite values and the smallest positive one in every series (finite values stay numbers)
+	out := []string{"all", "all-missing", "extra", "reversed", "extra-first", "extra-longer", "extreme"}
 	for i := range desc.Inputs {
 		out = append(out, "missing:"+strconv.Itoa(i), "longer:"+strconv.Itoa(i), "shorter:"+strconv.Itoa(i))
 	}
@@ -147,13 +149,26 @@ func inputsFor(t tables.Table, desc sim.ModelDescription, shape string, T int) (
 			L = T - 1
 		}
 		s := series(t, i, L)
+		if kind == "extreme" {
+			for k, v := range []float64{math.MaxFloat64, -math.MaxFloat64, math.SmallestNonzeroFloat64} {
+				if k < len(s) {
+					s[(k+i)%len(s)] = v
+				}
+			}
+		}
 		list = append(list, ni{desc.Inputs[i], s})
 		eff[i] = s
 	}
 	if kind == "extra" {
 		list = append(list, ni{"noSuchInput", []float64{1, 2, 3}})
 	}
-	if len(list) == 0 || (kind == "extra" && len(list) == 1 && n == 0) {
+	if kind == "extra-longer" {
+		list = append(list, ni{"noSuchInput", make([]float64, T+2)})
+	}
+	if kind == "extra-first" {
+		list = append([]ni{{"noSuchInput", make([]float64, T+2)}}, list...)
+	}
+	if len(list) == 0 || (strings.HasPrefix(kind, "extra") && len(list) == 1 && n == 0) {
 		errCase = true // no input series at all
 	}
 	if kind == "all-missing" {
@@ -247,6 +262,10 @@ func runReq(c reqCase, directOK map[string]bool, r *vf.Rec) {
 	desc := sim.Catalog[c.model]().Description()
 	plist, pvec, defaulted := paramsFor(t, desc, c.pShape)
 	ilist, eff, missing, errCase := inputsFor(t, desc, c.iShape, c.T)
+	if c.iShape == "extreme" && !directOK[c.model+"/"+c.pShape+"/extreme"] {
+		r.Count("structured_requests_skipped_direct_run_crashes_on_extreme_values", 1)
+		return
+	}
 	if !directOK[c.model+"/"+c.pShape] {
 		r.Count("skipped_direct_run_crashes_for_these_parameters", 1)
 		return
@@ -680,6 +699,12 @@ func sub(args []string) bool {
 		_, eff0, _, _ := inputsFor(t, desc, "all-missing", 3)
 		mrun.RunCell(args[1], pvec, eff0, 3, nil)
 		fmt.Fprintln(vf.Stdout, "ok")
+		// the largest finite inputs are outside many kernels' domain: a second verdict line says whether the direct run survives them
+		for _, T := range []int{1, 3} {
+			_, effx, _, _ := inputsFor(t, desc, "extreme", T)
+			mrun.RunCell(args[1], pvec, effx, T, nil)
+		}
+		fmt.Fprintln(vf.Stdout, "extreme-ok")
 		return true
 	}
 	return false
@@ -697,15 +722,17 @@ func pre(tier string, r *vf.Rec) {
 		for _, ps := range paramShapes(desc) {
 			cmd := exec.Command(self, "C17", "--direct", name, ps)
 			out, err := cmd.Output()
-			good := err == nil && strings.TrimSpace(string(out)) == "ok"
+			lines := strings.Fields(string(out))
+			good := len(lines) > 0 && lines[0] == "ok"
 			ok[name+"/"+ps] = good
+			ok[name+"/"+ps+"/extreme"] = err == nil && len(lines) == 2 && lines[1] == "extreme-ok"
 			if !good {
 				crashes++
 			}
 		}
 	}
 	r.Count("parameter_shapes_whose_direct_run_crashes", int64(crashes))
-	r.Count("parameter_shapes_probed_in_fresh_processes", int64(len(ok)))
+	r.Count("parameter_shapes_probed_in_fresh_processes", int64(len(ok)/2))
 	b, _ := json.Marshal(ok)
 	os.MkdirAll(filepath.Join(vf.Root, ".build"), 0755)
 	os.WriteFile(directPath(), b, 0644)
@@ -714,7 +741,7 @@ func pre(tier string, r *vf.Rec) {
 func Spec() *vf.Check {
 	return &vf.Check{
 		ID: "C17", Level: "exploration", BlockSize: 64, Sub: sub, Pre: pre,
-		Rule: "(i) for each of the 39 models with scalar parameters: parameters in {none, all, each one alone, all + an unknown name, reversed order} x inputs in {all, each one missing, all missing, each one longer, each one shorter, an unknown extra, reversed order} x T in {1,3} x splitOutputs: the answer is compared with a direct one-cell run (defaults / zeros, log lines), error cases must be answered with exactly one JSON document that describes the problem; " +
+		Rule: "(i) for each of the 39 models with scalar parameters: parameters in {none, all, each one alone, all + an unknown name, reversed order} x inputs in {all, each one missing, all missing, each one longer, each one shorter, an unknown extra (same length last; longer first; longer last), reversed order, the largest finite / smallest positive values in every series} x T in {1,3} x splitOutputs: the answer is compared with a direct one-cell run (defaults / zeros, log lines), error cases must be answered with exactly one JSON document that describes the problem; " +
 			"(ii) every byte string of length <= 3 over {{}}[]\":,1-ena\\ and space, and every single-byte deletion / substitution / truncation of three valid requests: no panic, exactly one JSON document, a description when nothing ran; (iii) JsonSafeArray over every depth-1 view (steps 1,2) of float64 roots [4],[2,3],[2,2,3] with NaN/+Inf/-Inf planted x every shiftDim. distinct_nontrivial = cases answered as required.",
 		Assumptions: []string{"requests whose parameters make the DIRECT run itself crash inside the model kernel (e.g. GR4J with all parameters defaulted to 0) are outside the statement and skipped; which ones is determined by running the direct run in a fresh process (counter parameter_shapes_whose_direct_run_crashes)",
 			"models with table-valued parameters (Storage, RatingCurvePartition) cannot be configured through the request format and are not enumerated in (i)"},
